@@ -199,6 +199,14 @@ Serve ==
             /\ stats' = [stats EXCEPT !.a = @ + (IF e.dbg /\ pos <= Len(block) /\ block[pos].final # e.final THEN 1 ELSE 0),
                                       !.b = @ + (IF e.dbg THEN 1 ELSE 0)]
             /\ UNCHANGED <<failStatus, known>>
+       [] Prop = "C12" ->
+            \* history independence: the long-lived middleware (reconfigured from configuration to configuration, having served
+            \* thousands of requests) answers exactly like a middleware created for this one request
+            /\ bad' = IF "fresh" \in DOMAIN e => (e.resp = e.fresh /\ e.final = e.freshfinal /\ e.invoked = e.freshinvoked)
+                         THEN bad ELSE bad \cup {l}
+            /\ stats' = [stats EXCEPT !.a = @ + (IF "fresh" \in DOMAIN e THEN 1 ELSE 0),
+                                      !.b = @ + (IF "fresh" \in DOMAIN e /\ IsPreflightReq(e) THEN 1 ELSE 0)]
+            /\ UNCHANGED <<block, failStatus, known>>
        [] Prop = "C10" ->
             /\ bad' = IF C10preserved(e) THEN bad ELSE bad \cup {l}
             /\ block' = Append(block, Summary(e, l))
